@@ -24,6 +24,7 @@ SAN = ["-fsanitize=address,undefined", "-fno-sanitize-recover=undefined",
        "-fno-omit-frame-pointer"]
 BASE_CFLAGS = ["-O1", "-g", "-w", "-DHAVE_CONFIG_H", "-D" + GUARD,
                "-D_GNU_SOURCE"]
+ALLOC_WRAP = "-Wl,--wrap=malloc,--wrap=calloc,--wrap=realloc,--wrap=strdup,--wrap=free"
 LIBS = ["-lz", "-lsnappy", "-lzstd", "-lpthread", "-ldl"]
 
 
@@ -105,7 +106,7 @@ class Run:
         files = []
         for sub in ("src/addrxlat", "src/kdumpfile"):
             for f in sorted(os.listdir(os.path.join(src, sub))):
-                if f.endswith(".c") and not f.startswith("test-") and f != "todo.c":
+                if f.endswith(".c") and not f.startswith("test-"):
                     files.append(os.path.join(sub, f))
         cflags = self._cflags(d, san, extra)
         jobs = []
